@@ -77,6 +77,21 @@ type descriptor struct {
 }
 
 func (c *Ctx) descriptorOf(v ssa.Value) *descriptor {
+	// the registry's interface type reached through another interface (a constructor typed with a common
+	// interface of the IKE and Child SA variants)
+	for i := 0; i < 3; i++ {
+		switch x := v.(type) {
+		case *ssa.ChangeInterface:
+			v = x.X
+			continue
+		case *ssa.ChangeType:
+			if _, isIface := x.X.Type().Underlying().(*types.Interface); isIface {
+				v = x.X
+				continue
+			}
+		}
+		break
+	}
 	if mi, ok := v.(*ssa.MakeInterface); ok {
 		v = mi.X
 	}
